@@ -7,7 +7,7 @@
    priority-sorted ANP list (C02_admin_order_irrelevant).  What is only sampled: the real map-iteration
    schedules of the Go runtime in code the mirror abstracts (dot output, exposure tables, Errors() order). *)
 From Coq Require Import List ZArith Bool String Permutation Sorting.Sorted.
-From NP Require Import IntervalSet ConnSet World Eval EvalProofs Build Connlist Diff Format SortGeneric FormatProofs OrderProofs.
+From NP Require Import IntervalSet ConnSet World Eval EvalProofs Build Connlist Diff Format SortGeneric FormatProofs OrderProofs DotProofs.
 Import ListNotations.
 
 (* sorting strings is a function of the multiset, and any correct sort.Strings computes it *)
@@ -38,6 +38,13 @@ Print Assumptions C08_list_csv_order_independent.
 Theorem C08_list_json_order_independent es1 es2 : Permutation es1 es2 -> list_json es1 = list_json es2.
 Proof. exact (list_json_perm_invariant es1 es2). Qed.
 Print Assumptions C08_list_json_order_independent.
+
+(* dot: the output is a function of the multiset of entries and of the set of peers (the formatter's peersList, whose
+   strings are distinct); map iteration over the namespace groups and the visiting order of the peers do not matter *)
+Theorem C08_list_dot_order_independent es1 es2 ps1 ps2 :
+  Permutation es1 es2 -> Permutation ps1 ps2 -> NoDup (map dp_str ps1) -> list_dot es1 ps1 = list_dot es2 ps2.
+Proof. exact (list_dot_perm_invariant es1 es2 ps1 ps2). Qed.
+Print Assumptions C08_list_dot_order_independent.
 
 (* diff formats *)
 Theorem C08_diff_txt_order_independent d1 d2 : Permutation d1 d2 -> diff_txt d1 = diff_txt d2.
